@@ -7,7 +7,7 @@ from .. import determinism
 from ..flow import ReachingDefs, base_name
 from ..program import (AnalysisError, call_name, dotted, kwarg, norm_key,
                        unparse, walk_no_nested)
-from ..util import is_self_attr, nodes_with_call
+from ..util import is_self_attr, nodes_with_call, through_copies
 
 EXPLANATION = (
     'Decided clauses: R-C03.1 (ownership) the optimiser '
@@ -29,7 +29,9 @@ EXPLANATION = (
     'generate_table_op_sql is a fresh mutator.create_model(); '
     'R-C03.7 mutation membership tests in the optimiser are identity-based (set/dict), see R-C01.7; R-C03.8 no declared initial value is used as a truth value anywhere in mutations/, mutators/ and db/ (0, "", False are initial values; only None means absent); '
     'R-C03.9 / R-C03.10 are R-C01.8 / R-C01.9: both are ways in which merging operations into one rebuild gives a different schema than applying them one at a time; '
-    'R-C03.11 folding a rename chain copies the whole target (name, db_column, db_table); R-C03.12 the per-model regrouping is segmented at RenameModel / DeleteModel (known finding); R-C03.13 the merged rebuild\'s data copy skips exactly the deleted columns (shared with R-C02.1/.2).')
+    'R-C03.11 folding a rename chain copies the whole target (name, db_column, db_table); R-C03.12 the per-model regrouping is segmented at RenameModel / DeleteModel (known finding); R-C03.13 the merged rebuild\'s data copy skips exactly the deleted columns (shared with R-C02.1/.2).'
+    ' '
+    'R-C03.14 a mutation never stores one of its own containers (**field_attrs, ...) by reference into a signature (plain attribute store or a constructor that keeps the reference; property setters that copy are recognised); R-C03.15 no write to a local container after it was handed to a signature constructor that keeps `param or <fresh>`.')
 NOT_DECIDED = (
     'Equivalence of the optimised run and the one-at-a-time run (signature, '
     'schema, rows) for all sequences: needs execution of both.')
@@ -839,7 +841,225 @@ def r13_merged_copy_map(ctx):
                    upto='R-C02.2')
 
 
+MUTATING_METHODS = {'update', 'pop', 'popitem', 'setdefault', 'clear',
+                    'append', 'extend', 'insert', 'remove', 'add', 'discard',
+                    'sort', 'reverse'}
+CONTAINER_CTORS = {'dict', 'list', 'set', 'OrderedDict', 'defaultdict'}
+
+
+def _container_attrs(cls):
+    """Attributes a mutation class binds in __init__ to a container it then
+    owns: a **kwargs / *args parameter, a container display, or a container
+    constructor call."""
+    out = set()
+    init = cls.find_method('__init__')
+    if init is None:
+        return out
+    a = init.node.args
+    star = {x.arg for x in (a.vararg, a.kwarg) if x is not None}
+    for n in walk_no_nested(init.node):
+        if not isinstance(n, ast.Assign):
+            continue
+        for t in n.targets:
+            if isinstance(t, ast.Attribute) and isinstance(t.value, ast.Name) \
+                    and t.value.id == 'self':
+                v = n.value
+                if isinstance(v, ast.Name) and v.id in star:
+                    out.add(t.attr)
+                elif isinstance(v, (ast.Dict, ast.List, ast.Set, ast.DictComp,
+                                    ast.ListComp, ast.SetComp)):
+                    out.add(t.attr)
+                elif isinstance(v, ast.Call) and \
+                        call_name(v) in CONTAINER_CTORS:
+                    out.add(t.attr)
+    return out
+
+
+def _copying_setters(p):
+    """Attribute names that some class of the package defines as a property
+    with a setter (assignment goes through code that may copy/normalise)."""
+    out = set()
+    for m in p.modules.values():
+        for c in m.classes.values():
+            for f in c.methods.values():
+                for d in f.node.decorator_list:
+                    if isinstance(d, ast.Attribute) and d.attr == 'setter':
+                        out.add(f.name)
+    return out
+
+
+def _stores_param_by_reference(cls, kw):
+    """True when cls.__init__ binds self.<x> = <kw> or `<kw> or <fresh>` -
+    the object then shares the caller's container (whenever it is truthy)."""
+    init = cls.find_method('__init__') if cls is not None else None
+    if init is None:
+        return None
+    for n in walk_no_nested(init.node):
+        if isinstance(n, ast.Assign):
+            v = n.value
+            if isinstance(v, ast.Name) and v.id == kw:
+                return 'always'
+            if isinstance(v, ast.BoolOp) and isinstance(v.op, ast.Or) and \
+                    isinstance(v.values[0], ast.Name) and \
+                    v.values[0].id == kw:
+                return 'unless-empty'
+    return None
+
+
+def r14_mutation_state_not_aliased(ctx, rule_id='R-C03.14'):
+    """A mutation object is replayed: AppMutator simulates every mutation
+    once while collecting and again when it renders SQL.  A container the
+    mutation owns (its **field_attrs, ...) must therefore never be stored by
+    reference into a signature: later mutations update the signature's
+    container in place and the earlier mutation is changed retroactively (the
+    second simulation then describes a state that never existed)."""
+    ctx.rule(rule_id)
+    p = ctx.program
+    setters = _copying_setters(p)
+    n_sites = 0
+    for m in p.modules.values():
+        if not m.name.startswith('django_evolution.mutations'):
+            continue
+        for c in m.classes.values():
+            owned = set()
+            for k in c.mro():
+                owned |= _container_attrs(k)
+            if not owned:
+                continue
+            for f in c.methods.values():
+                if f.name == '__init__':
+                    continue
+                for n in walk_no_nested(f.node):
+                    # (a) obj.attr = self.<owned>
+                    if isinstance(n, ast.Assign):
+                        v = through_copies(f, n.value)
+                        if is_self_attr(v) and v.attr in owned:
+                            for t in n.targets:
+                                if isinstance(t, ast.Attribute) and not \
+                                        is_self_attr(t):
+                                    n_sites += 1
+                                    if t.attr in setters:
+                                        ctx.ok(f, '%s goes through a '
+                                               'property setter' % t.attr, n)
+                                    else:
+                                        ctx.finding(
+                                            f, n, '%s stores the mutation\'s '
+                                            'own %s by reference into %s: a '
+                                            'later in-place change of the '
+                                            'signature rewrites this '
+                                            'mutation, and its second '
+                                            'simulation (SQL generation) '
+                                            'starts from the later state' % (
+                                                f.qualname, v.attr,
+                                                unparse(t)),
+                                            key='alias:%s->%s' % (
+                                                v.attr, t.attr))
+                    # (b) SomeSignature(kw=self.<owned>)
+                    if isinstance(n, ast.Call) and \
+                            (call_name(n) or '').endswith('Signature'):
+                        for kwd in n.keywords:
+                            v = through_copies(f, kwd.value)
+                            if kwd.arg and is_self_attr(v) and \
+                                    v.attr in owned:
+                                n_sites += 1
+                                kcls = None
+                                for mm in p.modules.values():
+                                    if call_name(n) in mm.classes:
+                                        kcls = mm.classes[call_name(n)]
+                                how = _stores_param_by_reference(kcls,
+                                                                 kwd.arg)
+                                if how and kwd.arg not in setters:
+                                    ctx.finding(
+                                        f, n, '%s hands the mutation\'s own '
+                                        '%s to %s(%s=...), which keeps the '
+                                        'reference' % (f.qualname, v.attr,
+                                                       call_name(n), kwd.arg),
+                                        key='alias:%s->%s()' % (
+                                            v.attr, call_name(n)))
+                                else:
+                                    ctx.ok(f, 'constructor copies', n)
+    ctx.counts['%s stores of mutation-owned containers into other objects' %
+               rule_id] = n_sites
+    if not n_sites:
+        ctx.ok(('django_evolution.mutations', '*'),
+               'no mutation stores one of its own containers into another '
+               'object')
+
+
+def r15_no_write_after_conditional_handover(ctx, rule_id='R-C03.15'):
+    """FieldSignature.__init__ (and its siblings) keep `param or Fresh()`:
+    the object shares the caller's container only when that container is not
+    empty.  A caller that hands a local container over and changes it
+    *afterwards* relies on the sharing - for an empty container the change
+    is silently lost (a column rename that the signature records but the
+    generated SQL does not contain)."""
+    ctx.rule(rule_id)
+    p = ctx.program
+    sig_classes = {}
+    for mm in p.modules.values():
+        for c in mm.classes.values():
+            if c.name.endswith('Signature'):
+                sig_classes[c.name] = c
+    n_calls = 0
+    for m in p.modules.values():
+        for f in m.all_funcs():
+            calls = [n for n in walk_no_nested(f.node)
+                     if isinstance(n, ast.Call) and
+                     call_name(n) in sig_classes]
+            if not calls:
+                continue
+            for call in calls:
+                for kwd in call.keywords:
+                    if not (kwd.arg and isinstance(kwd.value, ast.Name)):
+                        continue
+                    how = _stores_param_by_reference(
+                        sig_classes[call_name(call)], kwd.arg)
+                    if how != 'unless-empty':
+                        continue
+                    n_calls += 1
+                    local = kwd.value.id
+                    g = ctx.cfg(f)
+                    cnode = next((x for x in g.nodes if call in x.calls()),
+                                 None)
+                    if cnode is None:
+                        continue
+                    after = g.reachable([s for s, _ in cnode.succ],
+                                        follow_exc=False)
+                    late = None
+                    for x in g.nodes:
+                        if x.id not in after or x is cnode:
+                            continue
+                        for a in x.walk():
+                            if isinstance(a, ast.Call) and \
+                                    isinstance(a.func, ast.Attribute) and \
+                                    a.func.attr in MUTATING_METHODS and \
+                                    isinstance(a.func.value, ast.Name) and \
+                                    a.func.value.id == local:
+                                late = a
+                            if isinstance(a, ast.Subscript) and \
+                                    isinstance(a.ctx, (ast.Store, ast.Del)) \
+                                    and isinstance(a.value, ast.Name) and \
+                                    a.value.id == local:
+                                late = a
+                    if late is not None:
+                        ctx.finding(
+                            f, late, '%s changes its local %s after handing '
+                            'it to %s(%s=...), which keeps `%s or <fresh '
+                            'container>`: when %s is empty at the hand-over '
+                            'the object never sees the change' % (
+                                f.qualname, local, call_name(call), kwd.arg,
+                                kwd.arg, local),
+                            key='write-after-handover:%s' % local)
+                    else:
+                        ctx.ok(f, '%s is complete when handed to %s()' % (
+                            local, call_name(call)), call)
+    ctx.counts['%s local containers handed to a signature constructor that '
+               'keeps `x or fresh`' % rule_id] = n_calls
+
+
 def run(ctx):
+    r15_no_write_after_conditional_handover(ctx)
+    r14_mutation_state_not_aliased(ctx)
     r13_merged_copy_map(ctx)
     r12_regroup_respects_model_barriers(ctx)
     r11_fold_copies_target_state(ctx)
